@@ -642,6 +642,6 @@ pub fn jobs(prop: &str, tier: Tier) -> Vec<Job> {
         "C09" => "C09",
         _ => return vec![],
     };
-    let cases = if tier == Tier::Quick { 3_000 } else { 40_000 };
+    let cases = if tier == Tier::Quick { 16_000 } else { 400_000 };
     vec![Job { engine: Box::new(TsanEngine { prop: p }), cases, flavour: "tsan" }]
 }
